@@ -729,6 +729,9 @@ func main() {
 	rep := vh.NewReport(a, "templates = random source text ~quasiquote{..} (1/12 ~quote{..}) over a statement/expression grammar covering every go/ast node kind the parser accepts in quoted code, "+
 		"nesting depth 1..3 (~quasiquote/~quote inside), ~unquote / ~unquote_splice (long and ~, ~,@ forms) at random expression, type, statement, call-argument, composite-element, return-result, assignment, case-list, case-body, switch-body and block positions, "+
 		"bodies = variables pre-bound with ~quote to 17 known trees (expressions, statements, declaration, empty/1/2/3-element lists, case clauses, a block); nested chains ~unquote{~unquote_splice{..}} of every operator mix down to an evaluation or stopping early; "+
+		"stream chains (bounded-exhaustive, before the random stream): for every quasiquote depth D in 1..3 (1..4 thorough), every chain length L in 1..D and every one of the 2^L operator sequences over {~unquote, ~unquote_splice} (long and ~, ~,@ spellings), "+
+		"the directly nested chain op1{..opL{body}} in each of 9 list positions (statement list first/middle, call arguments middle/sole, composite elements, return results, case body, if block, function body) of the innermost quasiquote, "+
+		"body = a 0/1/2/3-element list variable when opL splices and L = D (the outer operators are re-wrapped around every element), an expression variable otherwise, a quoted expression when L < D; enclosing quasiquotes carry sibling statements; "+
 		"avoided input classes (known findings, replayed from the corpus stream): ParenExpr in templates, block-/declaration-valued variables and a literal block as sole statement under nested unquotes/quasiquotes, label: declaration; "+
 		"non-trivial = at least one evaluated unquote; distinct by SHA-256 of the source")
 	for name, want := range map[string][2]int{"QUOTE": {int(etoken.QUOTE), 128}, "QUASIQUOTE": {int(etoken.QUASIQUOTE), 129}, "UNQUOTE": {int(etoken.UNQUOTE), 130}, "UNQUOTE_SPLICE": {int(etoken.UNQUOTE_SPLICE), 131}, "MACRO": {int(etoken.MACRO), 132}} {
@@ -767,7 +770,7 @@ func main() {
 	}
 	header := "From Coq Require Import List NArith ZArith.\nFrom Verif Require Import Common.Rose C21.Model.\nImport ListNotations.\nOpen Scope Z_scope.\n" +
 		"Definition env0 : list (N * tree) := " + vh.CoqList(envCoq, "(N * tree)") + "."
-	cw := vh.NewCases(a, header, "case", "mismatches", 60)
+	cw := vh.NewCases(a, header, "case", "mismatches", 70)
 	wd := vh.NewWatchdog(rep, 20*time.Second)
 
 	idx := 0
@@ -789,7 +792,7 @@ func main() {
 			}
 			return
 		}
-		if cls := avoidedClass(tmpl, envRaw); cls != "" && stream == "random" {
+		if cls := avoidedClass(tmpl, envRaw); cls != "" && stream != "corpus" {
 			rep.Dist("generator:avoided-known-class:" + cls)
 			return
 		}
@@ -959,6 +962,18 @@ func main() {
 	}
 	for _, c := range corpus {
 		runCase(c.src, "corpus", c.key, false)
+	}
+	// chains: every operator sequence of directly nested unquotes at every depth, in every list position (chains.go)
+	maxD, perCombo := 3, 1
+	if a.Thorough() {
+		maxD, perCombo = 4, 4
+	}
+	for _, c := range genChains(rng.Fork(), maxD, perCombo, true) {
+		before := idx
+		runCase(c.src, "chains", "", true)
+		if idx != before {
+			rep.Dist("chain:" + c.desc[:strings.LastIndex(c.desc, ":")])
+		}
 	}
 	n := 350
 	if a.Thorough() {
